@@ -29,6 +29,7 @@ func runC07(c *rules.Ctx) {
 	c.CallArg(UP, "cltypes.ConcentratedPoolExtension.CalcActualAmounts|clmodel.Pool.CalcActualAmounts", 4, "liquidityDelta", "token amounts are computed for the same Δ")
 	// ---- initOrUpdateTick
 	const IT = K + "initOrUpdateTick"
+	c.ReturnOnlyUnder(IT, 0, "sdkmath.LegacyDec.IsZero(sdkmath.LegacyDec.Add(_.LiquidityGross, liquidityDelta))", "true", "a tick is reported empty only when its updated gross liquidity is zero (a boundary shared by two positions keeps gross > 0 while net may cancel)")
 	c.StoreField(IT, "LiquidityGross", "sdkmath.LegacyDec.Add(cl.Keeper.GetTickInfo(k,ctx,poolId,tickIndex)#0.LiquidityGross, liquidityDelta)", "gross liquidity grows by Δ")
 	c.OnlyWhen(IT, "sdkmath.LegacyDec.SubMut", "upper", "an upper boundary subtracts Δ from net liquidity")
 	c.OnlyWhen(IT, "sdkmath.LegacyDec.AddMut", "not(upper)", "a lower boundary adds Δ to net liquidity")
